@@ -174,7 +174,9 @@ def shrink(lines, pred0, budget=400):
 
 
 BORROWED = {'C02': {('C08', 'dup-flag'), ('C08', 'first-dup'), ('C12', 'resume-dup'), ('C08', 'content'), ('C12', 'resume-content')},
-            'C07': {('C08', 'content'), ('C08', 'dup-flag'), ('C08', 'first-dup')}}
+            'C07': {('C08', 'content'), ('C08', 'dup-flag'), ('C08', 'first-dup')},
+            # C04: "... onDisconnection ... after pending requests have been failed or preserved as the session mode demands"
+            'C04': {('C11', 'not-failed'), ('C12', 'publish-failed-on-loss'), ('C13', 'timer-of-lost-connection')}}
 
 
 def judge(prop, lines):
